@@ -412,6 +412,28 @@ def r_wrap_fields(e, R):
                       and any(k.arg is None for k in n.value.keywords) for n in func_nodes(ci))
             R.check(oko, "R-WRAP-FIELDS", f"{c.name}: the instance is built by the wrapped class with the caller's arguments", ci.short, "self._obj = obj(*args, **kwargs)",
                     "constructor arguments are not forwarded to the wrapped class", e.loc(ci, ci.node))
+    # the wrapper's own state is exactly the base fields: nothing may copy attributes of the wrapped object onto the
+    # wrapper (they would shadow __getattr__ forwarding, go stale, or overwrite _obj / _keep_wrapper)
+    WRITERS = ("functools.update_wrapper", "functools.wraps", "builtins.setattr", "builtins.vars", "copy.copy")
+    for c in [base] + subs:
+        for m in c.methods.values():
+            if not m.params:
+                continue
+            sn = m.params[0]
+            for n in func_nodes(m):
+                if isinstance(n, ast.Attribute) and isinstance(n.ctx, ast.Store) and isinstance(n.value, ast.Name) and n.value.id == sn:
+                    R.check(n.attr in battrs, "R-WRAP-FIELDS", f"{m.short}: stores only the wrapper's own fields (`{n.attr}`)", m.short, norm(n),
+                            f"the wrapper stores an extra attribute `{n.attr}` on itself: it shadows the wrapped object's attribute of that name",
+                            e.loc(m, n))
+                if isinstance(n, ast.Attribute) and n.attr == "__dict__" and isinstance(n.value, ast.Name) and n.value.id == sn:
+                    R.fail("R-WRAP-FIELDS", m.short, norm(n), "the wrapper manipulates its own __dict__: copied attributes shadow __getattr__ forwarding",
+                           e.loc(m, n))
+                if isinstance(n, ast.Call) and any(isinstance(x, ast.Name) and x.id == sn for x in n.args) and \
+                        any(v[0] == "ext" and v[1] in WRITERS for v in e.pt.ev(m, n.func)):
+                    R.fail("R-WRAP-FIELDS", m.short, norm(n)[:70],
+                           f"`{norm(n.func)}` copies attributes of the wrapped object (its whole __dict__, __name__, __doc__, ...) onto the wrapper: "
+                           "instance attributes then shadow the forwarding __getattr__ and go stale as soon as the wrapped object changes, and a wrapped "
+                           "object that is itself a wrapper overwrites _obj / _keep_wrapper", e.loc(m, n))
     ga = base.methods.get("__getattr__")
     okg = False
     if ga is not None:
